@@ -20,7 +20,7 @@ m("C01", "C01-setter-mask", "R01-layout:setter:C", ("opcode.go", "*inst = (*inst
 m("C01", "C01-jmp-no-bias", "R01-decode:OP_JMP", ("vm.go", "\t\t\tSbx := int(inst&0x3ffff) - opMaxArgSbx //GETSBX\n\t\t\tcf.Pc += Sbx\n\t\t\treturn 0\n\t\t},\n\t\tfunc(L *LState, inst uint32, baseframe *callFrame) int { //OP_EQ", "\t\t\tSbx := int(inst&0x3ffff) - opMaxArgBx //GETSBX\n\t\t\tcf.Pc += Sbx\n\t\t\treturn 0\n\t\t},\n\t\tfunc(L *LState, inst uint32, baseframe *callFrame) int { //OP_EQ"))
 # ---- C02
 m("C02", "C02-callg-no-remove-caller", "R02-tailframe:callGFunction:tail", ("vm.go", "\tif tailcall {\n\t\tL.currentFrame = L.RemoveCallerFrame()\n\t}", "\tif tailcall && gfnret >= 0 {\n\t\tL.currentFrame = L.RemoveCallerFrame()\n\t}"))
-m("C02", "C02-return-paren-call-tail", "R02-tailframe:compileReturnStmt", ("compile.go", "\t\t\tif ex.AdjustRet { // return (func())\n\t\t\t\treg += compileExpr(context, reg, ex, ecnone(0))\n\t\t\t} else {", "\t\t\tif false { // return (func())\n\t\t\t\treg += compileExpr(context, reg, ex, ecnone(0))\n\t\t\t} else {"))
+m("C02", "C02-return-paren-call-tail", "R02-tailframe:compileReturnStmt", ("compile.go", "\t\t\tif ex.AdjustRet { // return (func()): exactly one value, whatever the call left above it\n", "\t\t\tif false { // return (func())\n"))
 m("C02", "C02-removecaller-no-relink", "R02-tailframe:RemoveCallerFrame:relinks", ("state.go", "\tparentsParentFrame := parentFrame.Parent\n\t*parentFrame = *currentFrame\n\tparentFrame.Parent = parentsParentFrame\n", "\t*parentFrame = *currentFrame\n"))
 # ---- C03
 m("C03", "C03-inner-arm-no-close", "R03-close:(*LState).PCall$1$1:reclaim", ("state.go", "\t\t\t\t\t\tls.closeUpvalues(base)\n", ""))
@@ -358,5 +358,11 @@ for _p in ("C05", "C12"):
     m(_p, _p + "-error-value-pushed-checked", "R12-grow:raise-sites:Error#1:raised-value-pushed-without-raising", ("state.go", "\t\tif ls.reg.IsFull() {\n\t\t\t// as in raiseError: the value being raised has to fit, whatever the limit says\n\t\t\tls.reg.forceResize(ls.reg.Top() + 1)\n\t\t}\n\t\tls.reg.Push(lv)\n", "\t\tls.Push(lv)\n"))
 m("C17", "C17-for-hidden-variables-in-scope-at-once", "R17-scope:compileNumberForStmt:hidden-variables-in-scope-from-the-loop-entry", ("compile.go", "\tcontext.StartScopeHere()\n\tcode.AddASbx(OP_FORPREP, rindex, 0, sline(stmt))\n", "\tcode.AddASbx(OP_FORPREP, rindex, 0, sline(stmt))\n"))
 m("C17", "C17-generic-for-scope-start-before-the-explist", "R17-scope:compileGenericForStmt:hidden-variables-in-scope-from-the-loop-entry", ("compile.go", "\tcompileRegAssignment(context, hidden, stmt.Exprs, context.RegTop()-3, 3, sline(stmt))\n\n\tcontext.StartScopeHere()\n", "\tcontext.StartScopeHere()\n\tcompileRegAssignment(context, hidden, stmt.Exprs, context.RegTop()-3, 3, sline(stmt))\n\n"))
+for _p in ("C02", "C06"):
+    m(_p, _p + "-parenthesised-return-open", "R02-full:compileReturnStmt:parenthesised-call-returns-one", ("compile.go", "\t\t\t\tcode.AddABC(OP_RETURN, a, 2, 0, sline(stmt))\n", "\t\t\t\tcode.AddABC(OP_RETURN, a, 0, 0, sline(stmt))\n"))
+m("C10", "C10-upvalue-index-without-frame-test", "R10-bounds:Get:current-frame-used-only-where-there-is-one", ("state.go", "\t\t\tif ls.currentFrame == nil {\n\t\t\t\t// top level: no function is running, so there are no upvalues\n\t\t\t\treturn LNil\n\t\t\t}\n", ""))
+m("C14", "C14-parser-recursion-uncapped", "R14-depth:parsePattern:recursion-capped", ("pm/pm.go", "\t\t\t\tif sc.depth > maxCaptureNesting {\n\t\t\t\t\tpanic(newError(sc.CurrentPos(), \"too many captures\"))\n\t\t\t\t}\n", ""))
+m("C18", "C18-concat-separator-strict", "R18-lib:tableConcat:separator-may-be-a-number", ("tablelib.go", "\tsep := LString(\"\")\n\tif L.Get(2) != LNil {\n\t\t// a string, or a number (which is converted, as wherever a string is expected)\n\t\tsep = LString(L.CheckString(2))\n\t}\n", "\tsep := LString(L.OptString(2, \"\"))\n"))
+m("C06", "C06-refusal-after-the-first-frame", "R06-resumeapi:Resume:first-frame-after-the-refusals", ("state.go", "\tisstarted := th.isStarted()\n\n\tif ls.G.CurrentThread == th {", "\tisstarted := th.isStarted()\n\tif !isstarted {\n\t\tth.stack.Push(callFrame{Fn: fn, LocalBase: 1, NRet: MultRet})\n\t}\n\n\tif ls.G.CurrentThread == th {"))
 if __name__ == "__main__":
     main()
